@@ -13,6 +13,7 @@ structure RuleCfg where
   bt     : Bool                         -- effective backtracking setting (C14)
   esh    : SlashHandling
   routes : List (String × RouteM)       -- path expression, matching conditions
+  ver    : Nat := 0                     -- stands for everything else of this version of the rule (pipeline, backend)
 deriving Repr
 
 /-- what is stored in the routing tree: one entry per route -/
@@ -21,6 +22,7 @@ structure RVal where
   src   : String
   esh   : SlashHandling
   route : RouteM
+  ver   : Nat := 0                      -- the version of the rule this entry belongs to
 deriving Repr
 
 structure Rule where
@@ -44,7 +46,7 @@ def sameSource (old : List RVal) (v : RVal) : Bool :=
 def addRoutes (t : Table RVal) (r : Rule) : List (String × RouteM) → Option (Table RVal)
   | [] => some t
   | (p, m) :: rest =>
-    match add sameSource t p ⟨r.cfg.id, r.src, r.cfg.esh, m⟩ r.cfg.bt with
+    match add sameSource t p ⟨r.cfg.id, r.src, r.cfg.esh, m, r.cfg.ver⟩ r.cfg.bt with
     | .ok t' => addRoutes t' r rest
     | .error _ => none
 
